@@ -4,6 +4,7 @@ import (
 	"crypto/sha256"
 	"encoding/hex"
 	"math/rand"
+	"sort"
 
 	"verif/harness/chain"
 	"verif/harness/drv"
@@ -72,6 +73,15 @@ func serviceRandom(fl *drv.Flags, rng *rand.Rand, w *chain.TraceWriter) {
 			ev["vVol"] = int64(rng.Intn(4))
 		}
 	}
+	// negative probing (probe=<pct>, default 35): in that share of the blocks 1-3 operations aimed at
+	// objects in every life-cycle state that ever existed, by every role, with ids spelt differently /
+	// of the wrong length and coins of the wrong denom; most of them must be refused
+	probePct := int(fl.CfgInt("probe", 35))
+	mem := newMemory()
+	// how eagerly providers answer: usually about half of what is asked of them per block; one
+	// history in three has lazy providers (most requests expire: slashing, refunds, bindings
+	// slashed out of service), one in six eager ones
+	respondPct := []int{50, 50, 50, 15, 15, 85, 0}[rng.Intn(7)]
 	// one history in four contains "bursts": several contexts of one consumer created
 	// in one block (all due in its end-block) with funds for only some of them
 	bursty := rng.Intn(4) == 0
@@ -81,10 +91,26 @@ func serviceRandom(fl *drv.Flags, rng *rand.Rand, w *chain.TraceWriter) {
 		defs := chain.SortedKeys(st["defs"].(chain.M))
 		bind := st["bind"].(chain.M)
 		ctxs := st["ctx"].(chain.M)
-		ctxIDs := chain.SortedKeys(ctxs)
+		// the contexts that count against maxctx: those still alive (a killed context without a
+		// batch in flight and the module service's contexts stay in the store for ever)
+		var ctxIDs []string
+		for _, id := range chain.SortedKeys(ctxs) {
+			if cm, ok := ctxs[id].(chain.M); ok && chain.Str(cm, "state") != "completed" {
+				ctxIDs = append(ctxIDs, id)
+			}
+		}
 		active := st["active"].([]any)
 		reqs := st["req"].(chain.M)
 		var pending []chain.M
+		mem.note(st)
+		if btc && b > 0 {
+			// the exchange rate goes away / changes / comes back while a request priced in the
+			// second denom is in flight (its expiry then slashes a binding whose minimum deposit
+			// cannot be computed), in the block of a call, at and around expiry heights
+			if ev := e.rateMove(rng, st); ev != nil {
+				pending = append(pending, ev)
+			}
+		}
 		if btc && (b == 0 || rng.Intn(12) == 0) {
 			ev := svcEvent("SetRate", "")
 			ev["rn"], ev["rd"] = int64(rng.Intn(4)), []int64{1, 2, 4}[rng.Intn(3)]
@@ -101,20 +127,43 @@ func serviceRandom(fl *drv.Flags, rng *rand.Rand, w *chain.TraceWriter) {
 			pending = append(pending, e.burst(rng, st)...)
 		}
 		// providers answer about half of what is asked of them
+		// while requests are in flight: commands of the right role on exactly the context / binding
+		// a request in flight belongs to (disable, refund, re-price, top up, pause, start, kill,
+		// update between issue and expiry)
+		if len(active) > 0 && rng.Intn(3) == 0 {
+			if ev := e.inflightOp(rng, st, now); ev != nil {
+				pending = append(pending, ev)
+			}
+		}
+		// owners look after their bindings: one that is out of service (disabled, slashed below its
+		// minimum deposit) comes back with the deposit it needs
+		if ev := e.reEnable(rng, st); ev != nil && rng.Intn(3) == 0 {
+			pending = append(pending, ev)
+		}
 		for _, a := range active {
-			if rng.Intn(2) == 0 {
-				rid := a.(string)
+			if rng.Intn(100) < respondPct {
+				rid, _ := a.(string)
 				// an active-index entry without a request record (possible only in a broken
 				// tree) is answered by an arbitrary user: the driver must survive it so that
 				// the trace reaches the clauses
 				who := pick(e.users)
 				if rec, ok := reqs[rid].(chain.M); ok {
-					who = rec["provider"].(string)
+					who = chain.Str(rec, "provider")
+				}
+				if _, signs := e.c.Accts[who]; !signs {
+					continue // a module address as provider: nobody can answer for it
 				}
 				ev := svcEvent("Respond", who)
 				ev["req"] = rid
 				ev["okres"] = rng.Intn(4) > 0
 				pending = append(pending, ev)
+			}
+		}
+		if rng.Intn(100) < probePct {
+			for k := 1 + rng.Intn(3); k > 0; k-- {
+				if ev := e.probe(rng, st, mem, provs, mods, btc); ev != nil {
+					pending = append(pending, ev)
+				}
 			}
 		}
 		for j := 0; j < n; j++ {
@@ -134,12 +183,26 @@ func serviceRandom(fl *drv.Flags, rng *rand.Rand, w *chain.TraceWriter) {
 			case x < 14:
 				ev := svcEvent("Bind", pick(provs))
 				ev["svc"] = pick(defs)
+				for try := 0; try < 4; try++ {
+					// mostly a (service, provider) pair that is not bound yet
+					row, _ := bind[chain.Str(ev, "svc")].(chain.M)
+					if _, bound := row[chain.Str(ev, "who")]; !bound || rng.Intn(4) == 0 {
+						break
+					}
+					ev["who"], ev["svc"] = pick(provs), pick(defs)
+				}
 				ev["prov"] = ev["who"]
 				if rng.Intn(5) == 0 {
 					ev["prov"] = pick(provs)
 				}
 				setPricing(ev, now)
-				need := ev["price"].(int64) * e.cfg.minMult
+				if btc && rng.Intn(2) == 0 {
+					// the second denom with a real price: requests whose fee and whose binding's
+					// minimum deposit depend on the exchange rate
+					ev["pdenom"], ev["price"] = "btc", int64(1+rng.Intn(6))
+				}
+				need, _ := basePriceOf(st, ev)
+				need *= e.cfg.minMult
 				if need > 0 && need < e.cfg.minDep {
 					need = e.cfg.minDep
 				}
@@ -230,6 +293,14 @@ func serviceRandom(fl *drv.Flags, rng *rand.Rand, w *chain.TraceWriter) {
 					ev["amt"] = int64(rng.Intn(5))
 				}
 				ev["timeout"] = int64(1 + rng.Intn(3))
+				if capNeed, qosNeed := e.askFor(st, chain.Str(ev, "svc"), ps); capNeed > 0 && rng.Intn(3) > 0 {
+					// a call that its providers can serve: fee cap at or just above the dearest
+					// provider's (exchanged) price, timeout not below the slowest one's QoS
+					ev["amt"] = capNeed + int64(rng.Intn(3))
+					if t := ev["timeout"].(int64); t < qosNeed && qosNeed <= e.cfg.maxTimeout {
+						ev["timeout"] = qosNeed
+					}
+				}
 				if rng.Intn(15) == 0 {
 					ev["timeout"] = e.cfg.maxTimeout + int64(rng.Intn(2))
 				}
@@ -250,11 +321,30 @@ func serviceRandom(fl *drv.Flags, rng *rand.Rand, w *chain.TraceWriter) {
 				}
 				pending = append(pending, ev)
 				ctxIDs = append(ctxIDs, "pending")
+				if name == "Call" && rng.Intn(5) == 0 && len(ctxIDs) < maxCtx {
+					// a second call of the same consumer right behind the first: with bundling on
+					// (bundle=<pct>) the two creations share ONE transaction, hence one tx hash
+					ev2 := svcEvent("Call", u)
+					for _, k := range []string{"svc", "provs", "amt", "timeout", "repeated", "freq", "total"} {
+						ev2[k] = ev[k]
+					}
+					if rng.Intn(2) == 0 {
+						ev2["amt"] = int64(1 + rng.Intn(9))
+					}
+					pending = append(pending, ev2)
+					ctxIDs = append(ctxIDs, "pending")
+				}
 			case x < 78 && len(active) > 0:
 				rid := active[rng.Intn(len(active))].(string)
 				who := pick(e.users) // see above: an index entry without a record
 				if rec, ok := reqs[rid].(chain.M); ok {
-					who = rec["provider"].(string)
+					who = chain.Str(rec, "provider")
+				}
+				if _, signs := e.c.Accts[who]; !signs {
+					if rng.Intn(10) > 0 {
+						continue // a module address as provider: nobody can answer for it
+					}
+					who = u
 				}
 				ev := svcEvent("Respond", who)
 				if rng.Intn(10) == 0 {
@@ -266,18 +356,32 @@ func serviceRandom(fl *drv.Flags, rng *rand.Rand, w *chain.TraceWriter) {
 			case x < 81 && len(reqs) > 0:
 				// a request that may be answered / expired already
 				rid := pick(chain.SortedKeys(reqs))
-				rec := reqs[rid].(chain.M)
-				ev := svcEvent("Respond", rec["provider"].(string))
+				rec, _ := reqs[rid].(chain.M)
+				who := chain.Str(rec, "provider")
+				if _, signs := e.c.Accts[who]; !signs {
+					// the module service's own requests stay in the store for ever: rarely
+					if rng.Intn(10) > 0 {
+						continue
+					}
+					who = u
+				}
+				ev := svcEvent("Respond", who)
 				ev["req"] = rid
 				pending = append(pending, ev)
 			case x < 94 && len(ctxs) > 0:
 				id := pick(chain.SortedKeys(ctxs))
-				cm := ctxs[id].(chain.M)
-				who := cm["consumer"].(string)
+				if len(ctxIDs) > 0 && ctxIDs[0] != "pending" && rng.Intn(5) > 0 {
+					// mostly a context that is still alive (completed ones pile up in the store)
+					if live := pick(ctxIDs); live != "pending" {
+						id = live
+					}
+				}
+				cm, _ := ctxs[id].(chain.M)
+				who := chain.Str(cm, "consumer")
 				if rng.Intn(8) == 0 {
 					who = u
 				}
-				mod := cm["module"].(string) != ""
+				mod := chain.Str(cm, "module") != ""
 				if rng.Intn(10) == 0 {
 					mod = !mod
 				}
@@ -344,6 +448,11 @@ func serviceRandom(fl *drv.Flags, rng *rand.Rand, w *chain.TraceWriter) {
 		dt := int64(1)
 		if varDt && rng.Intn(4) == 0 {
 			dt = int64(1 + rng.Intn(3))
+		}
+		if varDt && rng.Intn(2) == 0 && e.disabledInflight(st) {
+			// a binding was disabled under a request in flight: the next block is far enough
+			// ahead for its deposit to be refunded before the request expires
+			dt = e.cfg.wait
 		}
 		if !e.runBlock(pending, dt) {
 			return
@@ -416,4 +525,444 @@ func tallyConsistent(st chain.M, o string) bool {
 		}
 	}
 	return true
+}
+
+// --- negative probing ---------------------------------------------------------
+
+// memory: every context and request the driver has ever seen, with the roles around it; objects
+// that have been removed since (expired one-shots, finished / killed repeated contexts, cleaned
+// batches) stay in here and keep being addressed.
+type memory struct {
+	ctx map[string]ctxInfo
+	req map[string]string // request -> provider
+}
+
+type ctxInfo struct {
+	consumer string
+	module   bool
+}
+
+func newMemory() *memory { return &memory{ctx: map[string]ctxInfo{}, req: map[string]string{}} }
+
+func (m *memory) note(st chain.M) {
+	ctxs, _ := st["ctx"].(chain.M)
+	for id, v := range ctxs {
+		if cm, ok := v.(chain.M); ok {
+			m.ctx[id] = ctxInfo{chain.Str(cm, "consumer"), chain.Str(cm, "module") != ""}
+		}
+	}
+	reqs, _ := st["req"].(chain.M)
+	for id, v := range reqs {
+		if rm, ok := v.(chain.M); ok {
+			m.req[id] = chain.Str(rm, "provider")
+		}
+	}
+}
+
+func sortedKeysOf[T any](m map[string]T) []string {
+	out := make([]string, 0, len(m))
+	for k := range m {
+		out = append(out, k)
+	}
+	sort.Strings(out)
+	return out
+}
+
+// gone: the members of all that are not keys of live (in all's order)
+func gone(all []string, live chain.M) []string {
+	var out []string
+	for _, k := range all {
+		if _, ok := live[k]; !ok {
+			out = append(out, k)
+		}
+	}
+	return out
+}
+
+var moduleAddrs = []string{"deposit", "request", "feepool"}
+
+func wrongDenom(rng *rand.Rand) string {
+	return []string{"btc", "btc", "both", "nosupply"}[rng.Intn(4)]
+}
+
+func idVariant(rng *rand.Rand) string {
+	return []string{"", "", "", "lc", "lc", "pfx", "pad"}[rng.Intn(7)]
+}
+
+// rateMove: a SetRate event chosen by what is in flight, or nil.
+func (e *env) rateMove(rng *rand.Rand, st chain.M) chain.M {
+	inflight := false
+	reqs, _ := st["req"].(chain.M)
+	for _, a := range anyList(st["active"]) {
+		rid, _ := a.(string)
+		if rec, ok := reqs[rid].(chain.M); ok && chain.Str(rec, "fdenom") == denom2 {
+			inflight = true
+		}
+	}
+	rate, _ := st["rate"].(chain.M)
+	has := chain.Num(rate, "n") > 0
+	ev := svcEvent("SetRate", "")
+	switch {
+	case inflight && has && rng.Intn(2) == 0:
+		ev["rn"], ev["rd"] = int64(0), int64(1)
+		if rng.Intn(3) == 0 {
+			// not away, but different from the rate the request was priced at
+			ev["rn"], ev["rd"] = int64(1+rng.Intn(3)), []int64{1, 2, 4}[rng.Intn(3)]
+		}
+	case !has && rng.Intn(4) == 0:
+		ev["rn"], ev["rd"] = int64(1+rng.Intn(3)), []int64{1, 2, 4}[rng.Intn(3)]
+	default:
+		return nil
+	}
+	return ev
+}
+
+func anyList(v any) []any {
+	l, _ := v.([]any)
+	return l
+}
+
+// probe: one operation aimed at an object in whatever life-cycle state it is in (also: no longer
+// there), by an arbitrary role, possibly with an id spelt differently or a coin of the wrong denom.
+func (e *env) probe(rng *rand.Rand, st chain.M, mem *memory, provs []string, mods, btc bool) chain.M {
+	pick := func(xs []string) string { return xs[rng.Intn(len(xs))] }
+	ctxs, _ := st["ctx"].(chain.M)
+	reqs, _ := st["req"].(chain.M)
+	bind, _ := st["bind"].(chain.M)
+	type bnd struct {
+		svc, prov string
+		rec       chain.M
+	}
+	var binds []bnd
+	for _, svc := range chain.SortedKeys(bind) {
+		row, _ := bind[svc].(chain.M)
+		for _, p := range chain.SortedKeys(row) {
+			if rec, ok := row[p].(chain.M); ok {
+				binds = append(binds, bnd{svc, p, rec})
+			}
+		}
+	}
+	switch rng.Intn(6) {
+	case 0: // a consumer command on any context that ever existed
+		all := sortedKeysOf(mem.ctx)
+		if len(all) == 0 {
+			return nil
+		}
+		id := pick(all)
+		if g := gone(all, ctxs); len(g) > 0 && rng.Intn(2) == 0 {
+			id = pick(g)
+		}
+		info := mem.ctx[id]
+		who := info.consumer
+		switch rng.Intn(4) {
+		case 0:
+			who = pick(e.users)
+		case 1:
+			who = pick(provs)
+		}
+		if _, signs := e.c.Accts[who]; !signs {
+			who = pick(e.users)
+		}
+		name := pick([]string{"Pause", "Start", "Kill", "Update"})
+		viaKeeper := mods && info.module && who == info.consumer && rng.Intn(4) > 0
+		if viaKeeper {
+			name = "Mod" + name
+		}
+		ev := svcEvent(name, who)
+		ev["ctx"] = id
+		if !viaKeeper {
+			ev["idv"] = idVariant(rng)
+		}
+		if name == "Update" || name == "ModUpdate" {
+			switch rng.Intn(4) {
+			case 0:
+				ev["amt"], ev["ddenom"] = int64(1+rng.Intn(9)), wrongDenom(rng)
+			case 1:
+				ev["amt"] = int64(1 + rng.Intn(9))
+			case 2:
+				ev["total"] = int64(rng.Intn(4))
+			}
+		}
+		return ev
+	case 1: // an answer to any request that ever existed
+		all := sortedKeysOf(mem.req)
+		if len(all) == 0 {
+			return nil
+		}
+		rid := pick(all)
+		if g := gone(all, reqs); len(g) > 0 && rng.Intn(2) == 0 {
+			rid = pick(g)
+		}
+		who := mem.req[rid]
+		if _, signs := e.c.Accts[who]; !signs {
+			if rng.Intn(10) > 0 {
+				return nil
+			}
+			who = pick(e.users)
+		} else if rng.Intn(4) == 0 {
+			who = pick(e.users)
+		}
+		ev := svcEvent("Respond", who)
+		ev["req"], ev["idv"] = rid, idVariant(rng)
+		ev["okres"] = rng.Intn(3) > 0
+		return ev
+	case 2: // a provider command on any binding, in whatever state, by any role
+		if len(binds) == 0 {
+			return nil
+		}
+		b := binds[rng.Intn(len(binds))]
+		who := chain.Str(b.rec, "owner")
+		switch rng.Intn(4) {
+		case 0:
+			who = pick(e.users)
+		case 1:
+			who = b.prov
+		}
+		if _, signs := e.c.Accts[who]; !signs {
+			who = pick(e.users)
+		}
+		name := pick([]string{"Disable", "Enable", "RefundDeposit", "UpdateBinding"})
+		ev := svcEvent(name, who)
+		ev["svc"], ev["prov"] = b.svc, b.prov
+		if name == "Enable" || name == "UpdateBinding" {
+			if rng.Intn(3) > 0 {
+				ev["amt"] = int64(1 + rng.Intn(6))
+				if rng.Intn(2) == 0 {
+					ev["ddenom"] = wrongDenom(rng)
+				}
+			}
+		}
+		if name == "UpdateBinding" && rng.Intn(3) == 0 {
+			ev["qos"] = int64(rng.Intn(int(e.cfg.maxTimeout) + 2))
+		}
+		return ev
+	case 3: // a binding that exists already, a provider somebody else owns, a module address as provider, a wrong-denom deposit
+		defs := chain.SortedKeys(chain.M(mOf(st["defs"])))
+		if len(defs) == 0 {
+			return nil
+		}
+		ev := svcEvent("Bind", pick(e.users))
+		ev["svc"], ev["prov"] = pick(defs), pick(e.users)
+		ev["price"], ev["qos"], ev["amt"] = int64(rng.Intn(4)), int64(1), int64(4*e.cfg.minMult+e.cfg.minDep+int64(rng.Intn(4)))
+		switch rng.Intn(4) {
+		case 0:
+			if len(binds) > 0 {
+				b := binds[rng.Intn(len(binds))]
+				ev["svc"], ev["prov"] = b.svc, b.prov
+				if rng.Intn(2) == 0 {
+					ev["who"] = chain.Str(b.rec, "owner")
+				}
+			}
+		case 1:
+			if rng.Intn(3) == 0 {
+				ev["prov"] = pick(moduleAddrs)
+			}
+		case 2:
+			ev["ddenom"] = wrongDenom(rng)
+		}
+		return ev
+	case 4: // a call with a fee cap of the wrong denom / for an unknown service / of the module service by name
+		defs := chain.SortedKeys(chain.M(mOf(st["defs"])))
+		if len(defs) == 0 || len(ctxs) >= 8 {
+			return nil
+		}
+		name := "Call"
+		if mods && rng.Intn(4) == 0 {
+			name = "ModCall"
+		}
+		ev := svcEvent(name, pick(e.users))
+		ev["svc"], ev["provs"], ev["amt"], ev["timeout"] = pick(defs), []any{pick(provs)}, int64(1+rng.Intn(9)), int64(1)
+		ev["thr"] = int64(1)
+		switch rng.Intn(3) {
+		case 0:
+			ev["svc"] = "nosuch"
+		default:
+			ev["ddenom"] = wrongDenom(rng)
+		}
+		return ev
+	default: // withdrawals by the wrong owner / of nothing; withdraw addresses that are module accounts
+		if rng.Intn(2) == 0 {
+			ev := svcEvent("SetWithdraw", pick(e.users))
+			ev["to"] = pick(append([]string{"blocked"}, moduleAddrs...))
+			return ev
+		}
+		ev := svcEvent("Withdraw", pick(e.users))
+		ev["prov"] = pick(e.users)
+		if len(binds) > 0 && rng.Intn(2) == 0 {
+			ev["prov"] = binds[rng.Intn(len(binds))].prov
+		}
+		return ev
+	}
+}
+
+func mOf(v any) map[string]any {
+	m, _ := v.(chain.M)
+	return m
+}
+
+// inflightOp: a command by the right role on the context or the binding of a request in flight.
+func (e *env) inflightOp(rng *rand.Rand, st chain.M, now int64) chain.M {
+	active := anyList(st["active"])
+	reqs, _ := st["req"].(chain.M)
+	ctxs, _ := st["ctx"].(chain.M)
+	bind, _ := st["bind"].(chain.M)
+	rid, _ := active[rng.Intn(len(active))].(string)
+	rec, ok := reqs[rid].(chain.M)
+	if !ok {
+		return nil
+	}
+	cid := chain.Str(rec, "ctx")
+	cm, ok := ctxs[cid].(chain.M)
+	if !ok {
+		return nil
+	}
+	if rng.Intn(2) == 0 {
+		name := []string{"Pause", "Start", "Kill", "Update", "Pause", "Start"}[rng.Intn(6)]
+		isMod := chain.Str(cm, "module") != ""
+		if isMod {
+			name = "Mod" + name
+		}
+		ev := svcEvent(name, chain.Str(cm, "consumer"))
+		ev["ctx"] = cid
+		if !isMod && rng.Intn(3) == 0 {
+			ev["idv"] = "lc"
+		}
+		if name == "Update" || name == "ModUpdate" {
+			ev["amt"] = int64(1 + rng.Intn(9))
+		}
+		return ev
+	}
+	svc, prov := chain.Str(cm, "svc"), chain.Str(rec, "provider")
+	row, _ := bind[svc].(chain.M)
+	b, ok := row[prov].(chain.M)
+	if !ok {
+		return nil
+	}
+	// what moves the binding on through its life cycle while the request is still in flight:
+	// available -> disabled -> (waiting time over) refunded -> enabled again
+	var names []string
+	switch {
+	case chain.Bool(b, "available"):
+		names = []string{"Disable", "Disable", "Disable", "UpdateBinding", "UpdateBinding"}
+	case chain.Num(b, "deposit") > 0:
+		names = []string{"RefundDeposit", "RefundDeposit", "RefundDeposit", "RefundDeposit", "Enable", "UpdateBinding"}
+	default:
+		names = []string{"RefundDeposit", "RefundDeposit", "Enable", "Enable", "UpdateBinding"}
+	}
+	name := names[rng.Intn(len(names))]
+	ev := svcEvent(name, chain.Str(b, "owner"))
+	ev["svc"], ev["prov"] = svc, prov
+	switch name {
+	case "Enable":
+		ev["amt"] = int64(rng.Intn(6))
+	case "UpdateBinding":
+		if rng.Intn(2) == 0 {
+			ev["amt"] = int64(1 + rng.Intn(6))
+		} else {
+			ev["setp"], ev["price"], ev["pdenom"] = true, int64(rng.Intn(9)), chain.Str(b, "pdenom")
+			if rng.Intn(3) == 0 {
+				ev["pdenom"] = []string{denom, denom2}[rng.Intn(2)]
+			}
+		}
+	}
+	return ev
+}
+
+// basePriceOf: the list price of a binding in the base denom as GetMinDeposit / GetExchangedPrice
+// see it now (0, false: it needs a rate and there is none).
+func basePriceOf(st, b chain.M) (int64, bool) {
+	price := chain.Num(b, "price")
+	if chain.Str(b, "pdenom") == denom || price == 0 {
+		return price, true
+	}
+	rate, _ := st["rate"].(chain.M)
+	n, d := chain.Num(rate, "n"), chain.Num(rate, "d")
+	if n == 0 || d == 0 {
+		return 0, false
+	}
+	v := price * n / d
+	if v == 0 {
+		v = 1
+	}
+	return v, true
+}
+
+// askFor: the fee cap and timeout that make every bound, available provider of ps eligible.
+func (e *env) askFor(st chain.M, svc string, ps []any) (capNeed, qosNeed int64) {
+	bind, _ := st["bind"].(chain.M)
+	row, _ := bind[svc].(chain.M)
+	for _, p := range ps {
+		name, _ := p.(string)
+		b, ok := row[name].(chain.M)
+		if !ok || !chain.Bool(b, "available") {
+			continue
+		}
+		if v, ok := basePriceOf(st, b); ok {
+			if v > capNeed {
+				capNeed = v
+			}
+			if q := chain.Num(b, "qos"); q > qosNeed {
+				qosNeed = q
+			}
+		}
+	}
+	return
+}
+
+// reEnable: the owner of some unavailable binding enables it again with the deposit it lacks.
+func (e *env) reEnable(rng *rand.Rand, st chain.M) chain.M {
+	bind, _ := st["bind"].(chain.M)
+	var cands []chain.M
+	for _, svc := range chain.SortedKeys(bind) {
+		row, _ := bind[svc].(chain.M)
+		for _, p := range chain.SortedKeys(row) {
+			b, ok := row[p].(chain.M)
+			if !ok || chain.Bool(b, "available") {
+				continue
+			}
+			base, ok := basePriceOf(st, b)
+			if !ok {
+				continue
+			}
+			need := base * e.cfg.minMult
+			if need > 0 && need < e.cfg.minDep {
+				need = e.cfg.minDep
+			}
+			ev := svcEvent("Enable", chain.Str(b, "owner"))
+			ev["svc"], ev["prov"] = svc, p
+			if lack := need - chain.Num(b, "deposit"); lack > 0 {
+				ev["amt"] = lack + int64(rng.Intn(3))
+			} else if rng.Intn(3) == 0 {
+				ev["amt"] = int64(1 + rng.Intn(3))
+			}
+			cands = append(cands, ev)
+		}
+	}
+	if len(cands) == 0 {
+		return nil
+	}
+	return cands[rng.Intn(len(cands))]
+}
+
+// disabledInflight: some request in flight is addressed to a binding that is out of service.
+func (e *env) disabledInflight(st chain.M) bool {
+	reqs, _ := st["req"].(chain.M)
+	ctxs, _ := st["ctx"].(chain.M)
+	bind, _ := st["bind"].(chain.M)
+	for _, a := range anyList(st["active"]) {
+		rid, _ := a.(string)
+		rec, ok := reqs[rid].(chain.M)
+		if !ok {
+			continue
+		}
+		cm, ok := ctxs[chain.Str(rec, "ctx")].(chain.M)
+		if !ok {
+			continue
+		}
+		row, _ := bind[chain.Str(cm, "svc")].(chain.M)
+		if b, ok := row[chain.Str(rec, "provider")].(chain.M); ok && !chain.Bool(b, "available") {
+			return true
+		}
+	}
+	return false
 }
